@@ -155,8 +155,11 @@ def flw9_envelope(ctx):
                 returned = slice_sig(st.rhs)
     if 'digest' in by_role:
         g = by_role['digest'][0]
-        ctx.check('FLW-9', 'load|digest-check', bool(upd) and any(c in ('Eq', 'Ne') for c in g['cmps']),
-                  'stored digest bytes are compared with SHA-256 of a slice of the file', where(g['term']))
+        bytes_cmp = any(re.search(r'PartialEq>::(ne|eq)$', c) for c in g['calls'])
+        on_len = any(c.endswith('::len') for c in g['calls'])
+        ctx.check('FLW-9', 'load|digest-check', bool(upd) and bytes_cmp and not on_len,
+                  'stored digest bytes are compared (slice equality: %s, via len(): %s) with SHA-256 of '
+                  'a slice of the file' % (bytes_cmp, on_len), where(g['term']))
         same = hashed is not None and returned is not None and \
             {(n, c) for (_b, n, c) in hashed if n != 'split_at'} == {(n, c) for (_b, n, c) in returned if n != 'split_at'} \
             and bool(hashed)
